@@ -152,42 +152,48 @@ func (c *treeCtx) ownBlockAccepted(run *hx.Run, rt *chainx.RichTree, r *hx.Rng, 
 			}
 			block, _ = eng.Finalize(bc1, header, post, included, uh, receipts)
 		}
-		bc1.Stop()
 		if block == nil {
 			run.Count("own-block:not-built")
+			bc1.Stop()
 			continue
 		}
-		run.Count(fmt.Sprintf("own-block:%s", how))
-		run.Count(fmt.Sprintf("own-block-txs:%d", len(block.Transactions())))
-		run.Count(fmt.Sprintf("own-block-uncles:%d", len(block.Uncles())))
-		// another node with the same ancestry imports it
-		archive := r.Bool()
-		cache := &core.CacheConfig{Disabled: true}
-		if !archive {
-			cache = &core.CacheConfig{}
+		c.judgeOwn(run, r, how, input, t.Blocks(path), bc1, block, receipts, post, how == "byhand")
+		bc1.Stop()
+	}
+}
+
+// judgeOwn: a block the node built itself must be accepted by a fresh node holding the same ancestry AND by the building
+// node, with the builder's receipts, state root and gas.
+func (c *treeCtx) judgeOwn(run *hx.Run, r *hx.Rng, how string, input map[string]interface{}, ancestry types.Blocks, builder *core.BlockChain,
+	block *types.Block, receipts types.Receipts, post *state.StateDB, emitCase bool) {
+	t := c.t
+	run.Count(fmt.Sprintf("own-block:%s", how))
+	run.Count(fmt.Sprintf("own-block-txs:%d", len(block.Transactions())))
+	run.Count(fmt.Sprintf("own-block-uncles:%d", len(block.Uncles())))
+	archive := r.Bool()
+	cache := &core.CacheConfig{Disabled: true}
+	if !archive {
+		cache = &core.CacheConfig{}
+	}
+	db2 := newMemDB()
+	bc2 := t.OpenChain(db2, cache)
+	defer bc2.Stop()
+	if len(ancestry) > 0 {
+		bc2.InsertChain(ancestry)
+	}
+	line := ""
+	if emitCase {
+		line = impInput(bc2, t.Cfg, block)
+	}
+	detail := fmt.Sprintf("%d txs, %d uncles", len(block.Transactions()), len(block.Uncles()))
+	n, err := bc2.InsertChain(types.Blocks{block})
+	if err != nil {
+		run.Violate("own-block-refused", "own-block-refused:"+how+":"+errClass(err), input,
+			fmt.Sprintf("a fresh node: InsertChain = (%d, %v) for a block assembled by the node's own %s path (%s)", n, err, how, detail))
+		if line != "" {
+			run.Case(line, "reject "+errClass(err))
 		}
-		db2 := newMemDB()
-		bc2 := t.OpenChain(db2, cache)
-		if len(path) > 0 {
-			bc2.InsertChain(t.Blocks(path))
-		}
-		for _, u := range uncleBlocks {
-			_ = u // the importing node does not need the uncle blocks themselves, only their parents (ancestors)
-		}
-		line := ""
-		if how == "byhand" {
-			line = impInput(bc2, t.Cfg, block)
-		}
-		n, err := bc2.InsertChain(types.Blocks{block})
-		if err != nil {
-			run.Violate("own-block-refused", "own-block-refused:"+how+":"+errClass(err), input,
-				fmt.Sprintf("InsertChain = (%d, %v) for a block assembled by the node's own %s path (%d txs, %d uncles)", n, err, how, len(block.Transactions()), len(block.Uncles())))
-			if line != "" {
-				run.Case(line, "reject "+errClass(err))
-			}
-			bc2.Stop()
-			continue
-		}
+	} else {
 		rs := core.GetBlockReceipts(db2, block.Hash(), block.NumberU64())
 		if line != "" {
 			run.Case(line, impAccept(block.Header(), rs))
@@ -195,17 +201,28 @@ func (c *treeCtx) ownBlockAccepted(run *hx.Run, rt *chainx.RichTree, r *hx.Rng, 
 		if canonReceipts(rs) != canonReceipts(receipts) {
 			run.Violate("own-block-differs", "own-block-differs:receipts:"+how, input, "receipts of the importer differ from the builder's: "+firstDiff(canonReceipts(rs), canonReceipts(receipts)))
 		}
-		if root := post.IntermediateRoot(t.Cfg.IsEIP158(block.Number())); root != block.Root() || !bc2.HasState(root) {
-			run.Violate("own-block-differs", "own-block-differs:root:"+how, input, fmt.Sprintf("builder state root %x, header root %x, importer has state: %v", root[:6], block.Root().Bytes()[:6], bc2.HasState(root)))
-		}
-		var last uint64
-		if len(receipts) > 0 {
-			last = receipts[len(receipts)-1].CumulativeGasUsed
-		}
-		if block.GasUsed() != last {
-			run.Violate("own-block-differs", "own-block-differs:gas:"+how, input, fmt.Sprintf("header gas used %d, builder's last cumulative gas %d", block.GasUsed(), last))
+		if !bc2.HasState(block.Root()) {
+			run.Violate("own-block-differs", "own-block-differs:root:"+how, input, "the importer has no state under the header's root")
 		}
 		run.Count("own-block-accepted")
-		bc2.Stop()
+	}
+	if root := post.IntermediateRoot(t.Cfg.IsEIP158(block.Number())); root != block.Root() {
+		run.Violate("own-block-differs", "own-block-differs:root:"+how, input, fmt.Sprintf("builder state root %x, header root %x", root[:6], block.Root().Bytes()[:6]))
+	}
+	var last uint64
+	if len(receipts) > 0 {
+		last = receipts[len(receipts)-1].CumulativeGasUsed
+	}
+	if block.GasUsed() != last {
+		run.Violate("own-block-differs", "own-block-differs:gas:"+how, input, fmt.Sprintf("header gas used %d, builder's last cumulative gas %d", block.GasUsed(), last))
+	}
+	// the building node imports its own block through the same path
+	if builder != nil {
+		if n, err := builder.InsertChain(types.Blocks{block}); err != nil {
+			run.Violate("own-block-refused", "own-block-refused-by-builder:"+how+":"+errClass(err), input,
+				fmt.Sprintf("the building node: InsertChain = (%d, %v) for its own block (%s)", n, err, detail))
+		} else {
+			run.Count("own-block-accepted-by-builder")
+		}
 	}
 }
